@@ -309,11 +309,28 @@ func (g *longRig) echo() *echoImpl {
 type bodyFaultRW struct {
 	*Endpoint
 	failNextBody atomic.Bool
+	nfault       atomic.Int64
+}
+
+// the VALUE of the per-message write error varies: a transport with its own write timeout returns a wrapped context
+// error although the stream's context is alive
+type netTimeoutErr struct{}
+
+func (netTimeoutErr) Error() string   { return "write tcp: i/o timeout" }
+func (netTimeoutErr) Timeout() bool   { return true }
+func (netTimeoutErr) Temporary() bool { return true }
+
+var bodyFaultErrs = []error{
+	errWriteInjected,
+	fmt.Errorf("transport write timeout: %w", context.DeadlineExceeded),
+	fmt.Errorf("transport write aborted: %w", context.Canceled),
+	io.EOF,
+	netTimeoutErr{},
 }
 
 func (b *bodyFaultRW) Write(ctx context.Context, r *Rpc) error {
 	if r.GetBody() != nil && b.failNextBody.CompareAndSwap(true, false) {
-		return errWriteInjected
+		return bodyFaultErrs[int(b.nfault.Add(1))%len(bodyFaultErrs)]
 	}
 	return b.Endpoint.Write(ctx, r)
 }
@@ -386,7 +403,7 @@ func (l *longRPC) run(cc *goat.ClientConn) {
 		if err := cs.SendMsg(&wrapperspb.BytesValue{Value: payloadOf(tok + int64(i))}); err != nil {
 			if l.outcome == "sendfail" {
 				// the gRPC contract: the stream is aborted; the caller just drops it (no cancel)
-				l.result = "send:" + classOf(err)
+				l.result = "send:error"
 				return
 			}
 			drain()
